@@ -281,6 +281,25 @@ func cmdCheck(args []string) int {
 			fails = append(fails, failure{r, ""})
 		}
 	}
+	// a failed obligation is assumed on the continuing path, which can make the
+	// function's remaining assumptions contradictory: vacuity alarms of a function
+	// that already has a failing obligation are consequences, not findings
+	{
+		failedFn := map[string]bool{}
+		for _, f := range fails {
+			if !f.r.Obl.Cover {
+				failedFn[f.r.Obl.Fn] = true
+			}
+		}
+		var keep []failure
+		for _, f := range fails {
+			if f.r.Obl.Cover && failedFn[f.r.Obl.Fn] {
+				continue
+			}
+			keep = append(keep, f)
+		}
+		fails = keep
+	}
 	for _, a := range attach {
 		nObl++
 		fails = append(fails, failure{&Result{Obl: &Obligation{Name: strings.SplitN(a, ":", 2)[0], Kind: "contract.attach", Desc: a}, Status: "failed", Output: a}, a})
